@@ -1401,8 +1401,7 @@ Proof.
   assert (Hf : forall m, forceNec (nd s' m) = forceNec (nd s m)) by apply (forceNec_nd_removeNode s p s' H).
   assert (Hnec : forall m, isNecessary (nd s' m) = isNecessary (nd s m)) by (intros; apply isNecessary_ext; auto).
   assert (Hv : forall m, valid (nd s' m) = valid (nd s m)).
-  { intros m. rewrite (valid_nd_removeNode s p s' H). destruct (decide (m = p)) as [->|]; [|reflexivity].
-    symmetry. apply (t_valid _ _ _ T), Hgp. }
+  { intros m. apply (valid_nd_removeNode s p s' H). }
   assert (Hlog : log s' = log s) by apply (log_removeNode s p s' H).
   split; [|split; [intros; apply Hp|split; [exact Hv|]]].
   2:{ intros m. rewrite Hg. destruct (decide (m = p)); [discriminate|auto]. }
@@ -2817,4 +2816,152 @@ Proof.
     destruct (heapAddIfNotPresent_spec s4 n s' (proj1 (b_heap _ _ B4)) ltac:(lia) H) as (_ & _ & Hids & _).
     intros m Hm. apply Hids, Hm.
   - apply ok_inv in H as [-> ->]. apply Post4; [apply only_heap_refl|apply B4|auto].
+Qed.
+
+(** ** Consequences of the quiescent clauses: validity is closed under declarations; a registered
+       scope node has its lhs-change registered *)
+Lemma valid_closed s :
+  binds_wf s -> kinds_ok s -> scoping_ok s ->
+  (forall n, scope (nd s n) = None -> valid (nd s n) = true) ->
+  (forall n b, has s n -> scope (nd s n) = Some b -> ~ inGen s b n -> valid (nd s n) = false /\ inGraph (nd s n) = false) ->
+  (forall n b, inGen s b n -> valid (nd s n) = valid (nd s b)) ->
+  forall m q, valid (nd s m) = true -> q ∈ decl (nd s m) -> valid (nd s q) = true.
+Proof.
+  intros Hb Hk [S1 S2 S3 S4] V1 V2 V3 m q Hv Hq.
+  assert (Hm : has s m) by (eapply has_decl, Hq).
+  assert (Hgen : forall x b, has s x -> valid (nd s x) = true -> scope (nd s x) = Some b -> inGen s b x).
+  { intros x b Hx Hvx Hsx. destruct (decide (x ∈ b_rhsNodes (bd s b))) as [|Hno]; [assumption|].
+    destruct (V2 x b Hx Hsx Hno) as [E _]. congruence. }
+  destruct (S1 m q Hq) as [E|[E|(b & Hkm & Hsq & Hr)]].
+  - apply V1, E.
+  - destruct (scope (nd s m)) as [b|] eqn:Esm; [|apply V1, E].
+    pose proof (Hgen m b Hm Hv Esm) as Gm. pose proof (S2 m q b Hq Esm E Gm) as Gq.
+    rewrite (V3 q b Gq), <- (V3 m b Gm). exact Hv.
+  - destruct (S3 b q Hr) as [E|[_ Gq]]; [congruence|]. rewrite (V3 q b Gq).
+    pose proof (Hk m Hm) as Hkm'. rewrite Hkm in Hkm'. destruct Hkm' as [-> [r Hr']].
+    pose proof (Hb b r Hr') as W.
+    destruct (scope (nd s b)) as [b0|] eqn:Esb; [|apply V1, Esb].
+    assert (Esm : scope (nd s (S b)) = Some b0) by (rewrite (bw_scope s b r W); exact Esb).
+    pose proof (Hgen (S b) b0 Hm Hv Esm) as Gm.
+    assert (Hbd : b ∈ decl (nd s (S b))) by (rewrite (bw_decl_main s b r W); left).
+    pose proof (S2 (S b) b b0 Hbd Esm Esb Gm) as Gb.
+    rewrite (V3 b b0 Gb), <- (V3 (S b) b0 Gm). exact Hv.
+Qed.
+
+Lemma Inv_Sta s : Inv s -> Sta s.
+Proof.
+  intros HI. split; try apply HI. destruct (inv_valid s HI) as [V1 V2 V3 V4].
+  apply valid_closed; auto; apply HI.
+Qed.
+
+Lemma scope_registered s :
+  edges_ok s -> zero_ok s -> nec_ok s -> par_ok s -> height_ok s -> obs_ok s ->
+  (forall m, forceNec (nd s m) = false) ->
+  binds_wf s -> kinds_ok s -> scoping_ok s ->
+  forall m b, inGraph (nd s m) = true -> scope (nd s m) = Some b -> inGraph (nd s b) = true.
+Proof.
+  intros He Hz Hnec Hpar Hh Hobs Hf Hb Hk Hsc m b.
+  remember (Z.to_nat (maxHeight s - height (nd s m))) as k eqn:Ek.
+  revert m Ek. induction (lt_wf k) as [k _ IH]. intros m Ek Hg Hs.
+  pose proof Hg as Hn. rewrite (Hnec m) in Hn. apply isNecessary_true in Hn as [Hn|[Hn|Hn]].
+  - rewrite Hf in Hn. discriminate.
+  - destruct (children (nd s m)) as [|c l] eqn:Ec; [congruence|].
+    assert (Hc : c ∈ children (nd s m)) by (rewrite Ec; left).
+    pose proof (child_registered s c m He Hz Hc) as Hgc.
+    apply (edges_parent_child s c m He) in Hc.
+    destruct (Hh c Hgc) as (Hc1 & Hc2 & _). specialize (Hc2 m Hc).
+    rewrite (Hpar c Hgc) in Hc.
+    destruct (sc_decl s Hsc c m Hc) as [E|[E|(b' & Hkc & Hsm & _)]].
+    + congruence.
+    + assert (Hlt : (Z.to_nat (maxHeight s - height (nd s c)) < k)%nat).
+      { destruct (Hh m Hg) as (Hm1 & _). subst k. lia. }
+      apply (IH _ Hlt c eq_refl Hgc). congruence.
+    + assert (b' = b) as -> by congruence.
+      pose proof (Hk c (has_inGraph s c Hgc)) as Hkc'. rewrite Hkc in Hkc'. destruct Hkc' as [-> [r Hr]].
+      apply (parent_registered s (S b) b He Hz). rewrite (Hpar (S b) Hgc), (bw_decl_main s b r (Hb b r Hr)). left.
+  - destruct (observers (nd s m)) as [|o l] eqn:Eo; [congruence|].
+    assert (Ho : o ∈ observers (nd s m)) by (rewrite Eo; left).
+    apply (ob_iff s Hobs) in Ho. destruct (ob_ids s Hobs o m Ho) as (_ & _ & E). congruence.
+Qed.
+
+Lemma Inv_sreg s : Inv s -> forall m b, inGraph (nd s m) = true -> scope (nd s m) = Some b -> inGraph (nd s b) = true.
+Proof. intros HI. apply scope_registered; try apply HI. apply (q_force s (inv_quiet s HI)). Qed.
+
+Lemma BInv_TInv s : BInv [] s -> TInv [] noE s.
+Proof.
+  intros [b_edges0 b_zero10 b_zero20 b_nec0 b_par0 b_height0 b_heap0 b_count0 b_obs0 b_valid0 b_sreg0 b_log0 b_life0].
+  assert (Hnil : forall m : nid, m ∉ []) by (intros m Hm; inversion Hm).
+  constructor; try assumption.
+  - intros m Hm. destruct (b_zero10 m Hm), (b_zero20 m (Hnil m) Hm). auto.
+  - intros m _ _. apply b_nec0, Hnil.
+  - intros m [].
+  - intros w Hw. inversion Hw.
+  - intros m _. apply b_par0, Hnil.
+  - intros m Hm. apply (b_height0 m (Hnil m) Hm).
+  - intros m _. apply b_life0.
+  - intros w Hw. inversion Hw.
+  - constructor.
+Qed.
+
+Lemma TInv_BInv s : TInv [] noE s ->
+  (forall m b, inGraph (nd s m) = true -> scope (nd s m) = Some b -> inGraph (nd s b) = true) ->
+  BInv [] s.
+Proof.
+  intros [t_edges0 t_zero0 t_nec0 t_necE0 t_W0 t_par0 t_height0 t_heap0 t_count0 t_obs0 t_valid0 t_log0 t_life0 t_lifeW0 t_nodup0] Hsreg.
+  assert (Hnil : forall m : nid, m ∉ []) by (intros m Hm; inversion Hm).
+  constructor; try assumption.
+  - intros m Hm. destruct (t_zero0 m Hm) as (? & ? & ? & ?). auto.
+  - intros m _ Hm. destruct (t_zero0 m Hm) as (? & ? & ? & ?). auto.
+  - intros m _. apply t_nec0; [apply Hnil|intros []].
+  - intros m _. apply t_par0, Hnil.
+  - intros m _ Hm. apply (t_height0 m Hm).
+  - intros m. apply t_life0, Hnil.
+Qed.
+
+Lemma nec_inval l n : Forall is_nec l -> forall l', EvInval n ∈ l ++ l' <-> EvInval n ∈ l'.
+Proof.
+  intros Hl l'. rewrite elem_of_app. split; [|auto]. intros [H|H]; [|exact H].
+  rewrite stdpp.list.Forall_forall in Hl. destruct (Hl _ H) as [m Hm]. discriminate.
+Qed.
+
+Lemma Rest_bn_frame s s' :
+  bn_frame s s' -> invq s' = invq s ->
+  (forall m, inGraph (nd s' m) = true -> valid (nd s' m) = true) ->
+  Rest s -> Rest s'.
+Proof.
+  intros F Hq Hvr R.
+  destruct R as [r_ids0 r_binds0 r_kinds0 r_scopes0 r_scoping0 r_vtop0 r_vdead0 r_vgen0 r_quiet0 r_shape0 r_stamps0 r_inval0].
+  assert (Hk : forall n, nkind (nd s' n) = nkind (nd s n)) by (intros n; apply (bf_static _ _ F n)).
+  assert (Hd : forall n, decl (nd s' n) = decl (nd s n)) by (intros n; apply (bf_static _ _ F n)).
+  assert (Hsc : forall n, scope (nd s' n) = scope (nd s n)) by (intros n; apply (bf_static _ _ F n)).
+  assert (Hv : forall n, valid (nd s' n) = valid (nd s n)) by (intros n; apply (bf_static _ _ F n)).
+  assert (Hf : forall n, forceNec (nd s' n) = forceNec (nd s n)) by (intros n; apply (bf_static _ _ F n)).
+  assert (Hhj : forall n, hAdj (nd s' n) = hAdj (nd s n)) by (intros n; apply (bf_static _ _ F n)).
+  assert (Hbd : forall b, bd s' b = bd s b) by (intros b; unfold bd; rewrite (bf_binds _ _ F); reflexivity).
+  constructor.
+  - apply (ids_ok_ext s s'); auto; apply F.
+  - apply (binds_wf_ext s s'); auto; apply F.
+  - apply (kinds_ok_ext s s'); auto; apply F.
+  - apply (scopes_ok_ext s s'); auto; apply F.
+  - apply (scoping_ok_ext s s'); auto; apply F.
+  - intros n. rewrite Hsc, Hv. auto.
+  - intros n b. rewrite (bf_has _ _ F), Hsc, Hv. unfold inGen. rewrite Hbd. intros H1 H2 H3.
+    destruct (r_vdead0 n b H1 H2 H3) as [H4 H5]. split; [exact H4|].
+    destruct (inGraph (nd s' n)) eqn:E; [|reflexivity]. apply Hvr in E. rewrite Hv in E. congruence.
+  - intros n b. unfold inGen. rewrite Hbd, !Hv. apply r_vgen0.
+  - destruct r_quiet0 as [q_anum0 q_invq0 q_status0 q_setDuring0 q_setRemoved0 q_handlers0 q_force0 q_hadj0 q_by0]. split.
+    + rewrite (bf_anum _ _ F). assumption.
+    + rewrite Hq. assumption.
+    + rewrite (bf_status _ _ F). assumption.
+    + rewrite (bf_setDuring _ _ F). assumption.
+    + rewrite (bf_setRemoved _ _ F). assumption.
+    + rewrite (bf_handlers _ _ F). assumption.
+    + intros n. rewrite Hf. auto.
+    + intros n. rewrite Hhj. auto.
+    + rewrite (bf_byHeight _ _ F). assumption.
+  - destruct r_shape0 as [A B]. split; [rewrite (bf_maxHeight _ _ F); exact A|].
+    rewrite (bf_byHeight _ _ F), (bf_maxHeight _ _ F). exact B.
+  - destruct r_stamps0 as [S1 S2]. split; rewrite (bf_stabNum _ _ F); [exact S1|].
+    intros n. destruct (bf_static _ _ F n) as (_&_&_&_&_&_&_& -> & -> & -> &_). apply S2.
+  - intros n. rewrite Hv. destruct (bf_log _ _ F) as (l & -> & Hl). rewrite (nec_inval l n Hl). auto.
 Qed.
